@@ -86,6 +86,9 @@ def part_matcher(chk, replay_case=None):
                 # evaluates the law on the real code over the same domain
                 model_law_failed = "%s: %s" % (cfg, r.error)
                 break
+        if not q and not model_law_failed:
+            import unbounded    # thorough-tier extra (tlapm proof of the law for all strings); can only add a note
+            unbounded.matcher_proof(chk)
         tag = "quick" if q else "thorough"
         rp = _tlc(chk, "Matcher", "Pairs_%s.cfg" % tag, workers=1)
         rm = _tlc(chk, "Matcher", "Members_wide_%s.cfg" % tag, workers=1)   # contains the hostnames over {a, b, .}
